@@ -200,7 +200,8 @@ pub fn execute(kind: Kind, cap0: usize, hist: &[Op]) -> (RefModel, Option<String
         flush_calls: 0,
         orig_grow: None,
     });
-    let envp: *mut Env = &mut *env;
+    let envp: *mut Env = Box::into_raw(env);
+    macro_rules! env { () => { unsafe { &mut *envp } }; }
     let mut model = RefModel { content: vec![], failed: false, cap: cap0, flushes: 0 };
     // construct
     let mut owned: Option<*mut DiplomatWrite> = None;
@@ -217,14 +218,14 @@ pub fn execute(kind: Kind, cap0: usize, hist: &[Op]) -> (RefModel, Option<String
                 flush: env_flush,
                 grow: env_grow,
             };
-            env.bufs.push(g);
+            env!().bufs.push(g);
             local = Some(unsafe { std::mem::transmute::<WriteMirror, DiplomatWrite>(m) });
         }
         Kind::RustOwned => {
             let w = unsafe { diplomat_buffer_write_create(cap0) };
             let m = w as *mut WriteMirror;
             unsafe {
-                env.orig_grow = Some((*m).grow);
+                env!().orig_grow = Some((*m).grow);
                 (*m).grow = ro_grow;
             }
             RO_ENV.with(|e| *e.borrow_mut() = Some(envp));
@@ -234,7 +235,7 @@ pub fn execute(kind: Kind, cap0: usize, hist: &[Op]) -> (RefModel, Option<String
             // caller buffer of cap0 bytes; usable capacity cap0-1
             let mut g = Guarded::new(cap0);
             let w = unsafe { diplomat_simple_write(g.ptr(), cap0) };
-            env.bufs.push(g);
+            env!().bufs.push(g);
             model.cap = cap0 - 1;
             local = Some(w);
         }
@@ -246,14 +247,14 @@ pub fn execute(kind: Kind, cap0: usize, hist: &[Op]) -> (RefModel, Option<String
     let mut violation = None;
     for (i, op) in hist.iter().enumerate() {
         let w = unsafe { &mut *wp };
-        let grows_before = env.grow_calls;
-        let flushes_before = env.flush_calls;
+        let grows_before = env!().grow_calls;
+        let flushes_before = env!().flush_calls;
         // ---- real step (the environment's grow answers are recorded), then the reference model
         // consumes exactly those answers
         let mut chunks: Vec<&[u8]> = vec![];
         match *op {
             Op::Write(c, ans) => {
-                env.next_answer = ans;
+                env!().next_answer = ans;
                 let s = CHUNKS[c as usize];
                 chunks.push(s.as_bytes());
                 if w.write_str(s).is_err() {
@@ -261,7 +262,7 @@ pub fn execute(kind: Kind, cap0: usize, hist: &[Op]) -> (RefModel, Option<String
                 }
             }
             Op::Fmt2(a, b, ans) => {
-                env.next_answer = ans;
+                env!().next_answer = ans;
                 let (sa, sb) = (CHUNKS[a as usize], CHUNKS[b as usize]);
                 chunks.push(sa.as_bytes());
                 chunks.push(sb.as_bytes());
@@ -274,10 +275,10 @@ pub fn execute(kind: Kind, cap0: usize, hist: &[Op]) -> (RefModel, Option<String
                 w.flush();
             }
         }
-        let mut answers: std::collections::VecDeque<(usize, Option<usize>)> = env.grow_requests[grows_before..]
+        let mut answers: std::collections::VecDeque<(usize, Option<usize>)> = env!().grow_requests[grows_before..]
             .iter()
             .cloned()
-            .zip(env.grow_results[grows_before..].iter().cloned())
+            .zip(env!().grow_results[grows_before..].iter().cloned())
             .collect();
         let mut model_err: Option<String> = None;
         for c in chunks {
@@ -318,7 +319,7 @@ pub fn execute(kind: Kind, cap0: usize, hist: &[Op]) -> (RefModel, Option<String
                 violation = Some(format!("op {i} {:?}: {s}", op));
             }
         };
-        if !env.bufs.iter().all(|g| g.intact()) {
+        if !env!().bufs.iter().all(|g| g.intact()) {
             bad("canary overwritten: write outside a buffer handed to the writer".into());
         }
         // buffers the writer no longer owns (replaced by grow) must not be written any more: skip, the
@@ -337,7 +338,7 @@ pub fn execute(kind: Kind, cap0: usize, hist: &[Op]) -> (RefModel, Option<String
                 if m.cap != model.cap {
                     bad(format!("cap={} model.cap={}", m.cap, model.cap));
                 }
-                let cur = env.bufs.last().unwrap();
+                let cur = env!().bufs.last().unwrap();
                 if m.buf as *const u8 != cur.raw[GUARD..].as_ptr() {
                     bad("buf pointer is not the buffer the environment handed out".into());
                 } else if m.len <= cur.n && cur.data()[..m.len] != model.content[..] {
@@ -346,8 +347,8 @@ pub fn execute(kind: Kind, cap0: usize, hist: &[Op]) -> (RefModel, Option<String
                     bad(format!("len {} > buffer size {}", m.len, cur.n));
                 }
                 let want_flush = if matches!(op, Op::Flush) { 1 } else { 0 };
-                if env.flush_calls - flushes_before != want_flush {
-                    bad(format!("flush callback ran {} times, expected {want_flush}", env.flush_calls - flushes_before));
+                if env!().flush_calls - flushes_before != want_flush {
+                    bad(format!("flush callback ran {} times, expected {want_flush}", env!().flush_calls - flushes_before));
                 }
             }
             Kind::RustOwned => {
@@ -373,7 +374,7 @@ pub fn execute(kind: Kind, cap0: usize, hist: &[Op]) -> (RefModel, Option<String
                 }
             }
             Kind::Fixed => {
-                let g = &env.bufs[0];
+                let g = &env!().bufs[0];
                 if m.cap != cap0 - 1 {
                     bad(format!("cap={} want {}", m.cap, cap0 - 1));
                 }
@@ -394,12 +395,13 @@ pub fn execute(kind: Kind, cap0: usize, hist: &[Op]) -> (RefModel, Option<String
     if let Some(w) = owned {
         unsafe {
             // restore the original grow before destroy (destroy does not call it, but be tidy)
-            (*(w as *mut WriteMirror)).grow = env.orig_grow.unwrap();
+            (*(w as *mut WriteMirror)).grow = env!().orig_grow.unwrap();
             diplomat_buffer_write_destroy(w);
         }
         RO_ENV.with(|e| *e.borrow_mut() = None);
     }
     drop(local);
+    drop(unsafe { Box::from_raw(envp) });
     (model, violation)
 }
 
